@@ -46,15 +46,18 @@ def highs(c, l, u, A, lo, hi, integrality=None, time_limit=60., maximize_minus_c
     cons = []
     if A is not None and A.shape[0] > 0:
         cons = [LinearConstraint(A, lo, hi)]
-    opts = {'time_limit': time_limit, 'presolve': True}
+    # presolve OFF: the HiGHS bundled with scipy 1.14 was caught twice returning wrong answers after presolve on EAO problems - a feasible MILP
+    # declared infeasible, and a MILP 'optimum' 0.2 % below the value of EAO's feasible, integral point (same booleans). Without presolve both
+    # instances are solved correctly; the problems here are small enough for that.
+    opts = {'time_limit': time_limit, 'presolve': False}
     if integrality is not None and np.any(integrality):
         opts['mip_rel_gap'] = 0.0
     r = milp(c, constraints=cons, bounds=Bounds(np.asarray(l, float), np.asarray(u, float)),
              integrality=integrality, options=opts)
     if r.status == 2:
         # the bundled HiGHS presolve occasionally declares a feasible MILP infeasible (observed: EAO's returned point satisfied every
-        # row and bound exactly): an infeasibility verdict counts only if the solve without presolve agrees
-        opts2 = dict(opts, presolve=False)
+        # row and bound exactly): an infeasibility verdict counts only if both presolve settings agree
+        opts2 = dict(opts, presolve=True)      # (cross-check with the other presolve setting)
         r2 = milp(c, constraints=cons, bounds=Bounds(np.asarray(l, float), np.asarray(u, float)), integrality=integrality, options=opts2)
         if r2.status != 2:
             r = r2
